@@ -1,5 +1,10 @@
 //! dlv: correspondence / oracle harness. `dlv <Cxx> --tier quick|thorough --seed N --out report.json [--replay file]`
 #![allow(dead_code)]
+mod astcheck;
+mod astsexp;
+mod devtools;
+mod exec;
+mod progen;
 mod model;
 mod props;
 mod report;
@@ -12,6 +17,14 @@ fn main() {
     if args.len() < 2 {
         eprintln!("usage: dlv <Cxx> [--tier quick|thorough] [--seed N] [--out file] [--replay file]");
         std::process::exit(2);
+    }
+    if args[1] == "progtest" {
+        std::process::exit(devtools::progtest(&args[2..]));
+    }
+    if args[1] == "astcheck" {
+        // self-test of the shared AST codec (astsexp.rs <-> Shared/AstSexp.lean)
+        std::panic::set_hook(Box::new(|_| {}));
+        std::process::exit(astcheck::run(&args[2..]));
     }
     let prop = args[1].to_uppercase();
     let mut tier = "quick".to_owned();
